@@ -24,6 +24,7 @@ static void real_aes(bool enc, const unsigned char *key, unsigned char *blk) {
   memcpy(blk, b, 16);
 }
 static void aes_case(const char *suite, const bytes &key, const bytes &blk) {
+  trace_case(suite, "aes key=" + hex(key) + " blk=" + hex(blk));
   unsigned char c[16]; memcpy(c, blk.data(), 16);
   real_aes(true, key.data(), c);
   emitM(suite, "aes e " + hex(key) + " " + hex(blk), hex(c, 16));
@@ -69,6 +70,7 @@ static void suite_aes(Rng &rng) {
 static void mode_case(const char *suite, int type, const bytes &key, const bytes &iv, const std::vector<bytes> &segs) {
   for (int dir = 0; dir < 2; dir++) {
     bool enc = dir == 0;
+    if (tracing()) { std::string d = "mode type=" + S(type) + " dir=" + S(dir) + " key=" + hex(key) + " iv=" + hex(iv); for (auto &sg : segs) d += " " + hex(sg); trace_case(suite, d); }
     alignas(16) unsigned char k[16]; memcpy(k, key.data(), 16);
     alignas(16) unsigned char v[16]; memcpy(v, iv.data(), 16);
     AesFactory f(k); f.loadiv(v);
@@ -145,6 +147,7 @@ static void suite_mode(Rng &rng) {
 
 // ---------------- C07 ----------------
 static std::string real_string_hash(int alg, const bytes &m) {
+  trace_case("hash", "string alg=" + S(alg) + " m=" + hex(m));
   HashFactory hf; Hashmaster *h = hf.getHasher(hf.getType((u8_t)alg));
   if (!h) return "null";
   static const unsigned char none = 0;
@@ -152,6 +155,7 @@ static std::string real_string_hash(int alg, const bytes &m) {
   std::string r = hex(out, h->gethlen()); delete h; return r;
 }
 static std::string real_file_hash(int alg, const bytes &file, size_t pos, const bytes *prefix) {
+  trace_case("fhash", "file alg=" + S(alg) + " H=" + S(HB) + " pos=" + S((long)pos) + " prefix=" + (prefix ? hex(*prefix) : std::string("-")) + " file=" + hex(file));
   HashFactory hf; Hashmaster *h = hf.getHasher(hf.getType((u8_t)alg));
   if (!h) return "null";
   MemFile mf(file); FILE *fp = mf.openr(); fseek(fp, (long)pos, SEEK_SET);
@@ -201,6 +205,7 @@ static void suite_hmac(Rng &rng) {
   for (int h = 0; h < 3; h++) for (long n : lens) {
     bytes key = rng.buf(16), file = rng.buf(n + 8); size_t pos = rng.below(9); if (pos > file.size()) pos = 0;
     alignas(16) unsigned char k[16]; memcpy(k, key.data(), 16);
+    trace_case(suite, "hmac h=" + S(h) + " key=" + hex(key) + " pos=" + S((long)pos) + " file=" + hex(file));
     unsigned char tag[64] = {0};
     { MemFile mf(file); FILE *fp = mf.openr(); fseek(fp, (long)pos, SEEK_SET); hmac hm; hm.gethmac((u8_t)h, k, fp, tag); fclose(fp); }
     int hlen = h == 0 ? 20 : h == 1 ? 16 : 32;
@@ -229,6 +234,7 @@ static void suite_hmac(Rng &rng) {
 
 // ---------------- C16 ----------------
 static std::string real_b64e(const bytes &m) {
+  trace_case("b64e", "encode m=" + hex(m));
   std::vector<unsigned char> out(m.size() * 2 + 16, 0xAA);
   hex_to_base64(m.data(), (int)m.size(), out.data());
   size_t n = strlen((char *)out.data());
@@ -253,6 +259,7 @@ static void key_case(const bytes &s) {
   // is_valid_b64 is called with strlen(optarg): the string ends at its first NUL
   bytes str = s; auto z = std::find(str.begin(), str.end(), 0); str.erase(z, str.end());
   std::vector<unsigned char> c(str.begin(), str.end()); c.push_back(0);
+  trace_case("keyok", "key string=" + hex(str));
   bool ok = is_valid_b64(c.data(), (int)str.size());
   emitM("keyok", "keyok " + hex(str), ok ? "1" : "0");
   if (ok) {
